@@ -69,29 +69,30 @@ theorem skipErrors_terminates {T : Tables} {inp : Array Nat} :
           rw [h2]; decide
     · intro hc; cases hc
 
-theorem searchStack_no_timeout {T : Tables} {la : Int} {fuel : Nat}
-    (hsim : ∀ st, simulate T la fuel st ≠ .timeout) :
-    ∀ (st : List Entry), searchStack T la fuel st ≠ .error "TIMEOUT"
-  | [] => by simp [searchStack]
-  | e :: rest => by
+theorem searchStack_no_timeout {T : Tables} {la : Int} {fuel : Nat} :
+    ∀ (st : List Entry), (∀ e ∈ st, simulate T la fuel e.state ≠ .timeout) →
+      searchStack T la fuel st ≠ .error "TIMEOUT"
+  | [], _ => by simp [searchStack]
+  | e :: rest, hsim => by
     unfold searchStack
     cases hs : simulate T la fuel e.state with
     | found => simp
-    | notFound => exact searchStack_no_timeout hsim rest
+    | notFound =>
+      exact searchStack_no_timeout rest (fun x hx => hsim x (List.mem_cons_of_mem _ hx))
     | oob => simp
-    | timeout => exact absurd hs (hsim _)
+    | timeout => exact absurd hs (hsim e List.mem_cons_self)
 
 /-- The outer loop of `_recover` ends within `nu + 2` iterations (it stops at EOF). -/
 theorem recoverLoop_terminates {T : Tables} {inp : Array Nat} {errSym : Val} {fuel : Nat}
-    (hsim : ∀ la st, simulate T la fuel st ≠ .timeout) :
-    ∀ (n : Nat) (s : PState), (nu inp s + 2 ≤ n ∨ (s.la = tEOF ∧ 1 ≤ n)) →
+    {stk : List Entry} (hsim : ∀ la, ∀ e ∈ stk, simulate T la fuel e.state ≠ .timeout) :
+    ∀ (n : Nat) (s : PState), s.stack = stk → (nu inp s + 2 ≤ n ∨ (s.la = tEOF ∧ 1 ≤ n)) →
       recoverLoop T inp errSym fuel n s ≠ .timeout
-  | 0, s, h => by omega
-  | n + 1, s, h => by
+  | 0, s, _, h => by omega
+  | n + 1, s, hstk, h => by
     unfold recoverLoop
     split
     · rename_i hs
-      exact absurd hs (searchStack_no_timeout (hsim s.la) s.stack)
+      exact absurd hs (searchStack_no_timeout s.stack (by rw [hstk]; exact hsim s.la))
     · intro hc; cases hc
     · intro hc; cases hc
     · split
@@ -104,15 +105,17 @@ theorem recoverLoop_terminates {T : Tables} {inp : Array Nat} {errSym : Val} {fu
         split
         · intro hc; cases hc
         · rename_i s1 hr
-          apply recoverLoop_terminates hsim n s1
+          apply recoverLoop_terminates hsim n s1 (by rw [(readToken_frame hr).stack]; exact hstk)
           rcases readToken_nu hr with h1 | ⟨h1, h2⟩
           · left; omega
           · right; exact ⟨h2, by omega⟩
 
-/-- **recover_terminates.** `_recover()` does not run out of fuel when the fuel covers the rest
-of the input (+3) and the inner simulation terminates within the same fuel. -/
-theorem recover_terminates {T : Tables} {inp : Array Nat} {fuel : Nat} {s : PState}
-    (hsim : ∀ la st, simulate T la fuel st ≠ .timeout) (hfuel : inp.size - s.pos + 3 ≤ fuel) :
+/-- **recover_terminates** (stack-restricted form). `_recover()` does not run out of fuel when the
+fuel covers the rest of the input (+3) and the inner simulation, started from any state on the
+stack, terminates within the same fuel. -/
+theorem recover_terminates' {T : Tables} {inp : Array Nat} {fuel : Nat} {s : PState}
+    (hsim : ∀ la, ∀ e ∈ s.stack, simulate T la fuel e.state ≠ .timeout)
+    (hfuel : inp.size - s.pos + 3 ≤ fuel) :
     recover T inp fuel s ≠ .timeout := by
   have hnu : nu inp s + 2 ≤ fuel := by
     unfold nu; split <;> omega
@@ -130,11 +133,13 @@ theorem recover_terminates {T : Tables} {inp : Array Nat} {fuel : Nat} {s : PSta
       | none => exact absurd hs1 h1
       | some s1 =>
         dsimp only
-        have hn1 : nu inp s1 ≤ nu inp s := (skipErrors_ok fuel hs1).1.nu_le
+        have hr1 := (skipErrors_ok fuel hs1).1
+        have hn1 : nu inp s1 ≤ nu inp s := hr1.nu_le
+        have hst1 : s1.stack = s.stack := hr1.frame.stack
         cases hrec : s1.recovering with
         | false =>
           simp only [Bool.false_eq_true, if_false]
-          exact recoverLoop_terminates hsim fuel s1 (.inl (by omega))
+          exact recoverLoop_terminates hsim fuel s1 hst1 (.inl (by omega))
         | true =>
           simp only [if_true]
           by_cases hE : s1.la = tEOF
@@ -145,6 +150,7 @@ theorem recover_terminates {T : Tables} {inp : Array Nat} {fuel : Nat} {s : PSta
             | ok s2 =>
               dsimp only
               have hn2 := readToken_nu_le hr
+              have hst2 : s2.stack = s.stack := (readToken_frame hr).stack.trans hst1
               have h3 := skipErrors_terminates (T := T) (inp := inp) fuel s2 (.inl (by omega))
               cases hs3 : skipErrors T inp fuel s2 with
               | error w => intro hc; cases hc
@@ -153,8 +159,17 @@ theorem recover_terminates {T : Tables} {inp : Array Nat} {fuel : Nat} {s : PSta
                 | none => exact absurd hs3 h3
                 | some s3 =>
                   dsimp only
-                  have hn3 : nu inp s3 ≤ nu inp s2 := (skipErrors_ok fuel hs3).1.nu_le
-                  exact recoverLoop_terminates hsim fuel s3 (.inl (by omega))
+                  have hr3 := (skipErrors_ok fuel hs3).1
+                  have hn3 : nu inp s3 ≤ nu inp s2 := hr3.nu_le
+                  exact recoverLoop_terminates hsim fuel s3 (hr3.frame.stack.trans hst2)
+                    (.inl (by omega))
+
+/-- **recover_terminates.** `_recover()` does not run out of fuel when the fuel covers the rest
+of the input (+3) and the inner simulation terminates within the same fuel. -/
+theorem recover_terminates {T : Tables} {inp : Array Nat} {fuel : Nat} {s : PState}
+    (hsim : ∀ la st, simulate T la fuel st ≠ .timeout) (hfuel : inp.size - s.pos + 3 ≤ fuel) :
+    recover T inp fuel s ≠ .timeout :=
+  recover_terminates' (fun la e _ => hsim la e.state) hfuel
 
 /-! ## The inner simulation -/
 
@@ -226,5 +241,167 @@ theorem recover_terminates_of_rank {T : Tables} {inp : Array Nat} {fuel : Nat} {
     recover T inp fuel s ≠ .timeout :=
   recover_terminates
     (fun la st => simulate_rank rank (simRankOK_sound hOK) fuel st (by have := hB st; omega)) hfuel2
+
+/-! ## Fuel monotonicity: more fuel does not change a result that was not a timeout -/
+
+theorem simulate_mono {T : Tables} {la : Int} : ∀ (n : Nat) {m : Nat} {st : Int},
+    simulate T la n st ≠ .timeout → n ≤ m → simulate T la m st = simulate T la n st
+  | 0, _, _, h, _ => by simp [simulate] at h
+  | n + 1, m, st, h, hle => by
+    obtain ⟨m', rfl⟩ : ∃ m', m = m' + 1 := ⟨m - 1, by omega⟩
+    unfold simulate at h ⊢
+    cases hf : find T.actions st tERROR with
+    | oob => rfl
+    | miss => rfl
+    | hit action =>
+      simp only [hf] at h ⊢
+      by_cases hneg : action < 0
+      · simp only [hneg, if_true] at h ⊢
+        cases hg : geti T.rules (-action) with
+        | none => rfl
+        | some rule =>
+          simp only [hg] at h ⊢
+          cases hgo : find T.gotos st rule with
+          | oob => rfl
+          | miss => simp only [hgo] at h ⊢; exact simulate_mono n h (by omega)
+          | hit st' => simp only [hgo] at h ⊢; exact simulate_mono n h (by omega)
+      · simp only [hneg, if_false]
+
+theorem searchStack_mono {T : Tables} {la : Int} {n m : Nat} (hle : n ≤ m) :
+    ∀ (st : List Entry), searchStack T la n st ≠ .error "TIMEOUT" →
+      searchStack T la m st = searchStack T la n st
+  | [], _ => rfl
+  | e :: rest, h => by
+    unfold searchStack at h ⊢
+    have hs : simulate T la n e.state ≠ .timeout := by
+      intro hc; rw [hc] at h; exact h rfl
+    rw [simulate_mono n hs hle]
+    cases hsim : simulate T la n e.state with
+    | found => rfl
+    | notFound =>
+      rw [hsim] at h
+      exact searchStack_mono hle rest h
+    | oob => rfl
+    | timeout => exact absurd hsim hs
+
+theorem skipErrors_mono {T : Tables} {inp : Array Nat} : ∀ (n : Nat) {m : Nat} {s : PState},
+    skipErrors T inp n s ≠ .ok none → n ≤ m → skipErrors T inp m s = skipErrors T inp n s
+  | 0, _, _, h, _ => by simp [skipErrors] at h
+  | n + 1, m, s, h, hle => by
+    obtain ⟨m', rfl⟩ : ∃ m', m = m' + 1 := ⟨m - 1, by omega⟩
+    unfold skipErrors at h ⊢
+    split
+    · rename_i hla
+      simp only [hla, if_true] at h
+      cases hr : readToken T inp s with
+      | error w => rfl
+      | ok s1 =>
+        simp only [hr, bind, Except.bind] at h ⊢
+        exact skipErrors_mono n h (by omega)
+    · rfl
+
+theorem recoverLoop_mono {T : Tables} {inp : Array Nat} {errSym : Val} {fuel fuel' : Nat}
+    (hf : fuel ≤ fuel') : ∀ (n : Nat) {m : Nat} {s : PState},
+    recoverLoop T inp errSym fuel n s ≠ .timeout → n ≤ m →
+      recoverLoop T inp errSym fuel' m s = recoverLoop T inp errSym fuel n s
+  | 0, _, _, h, _ => by simp [recoverLoop] at h
+  | n + 1, m, s, h, hle => by
+    obtain ⟨m', rfl⟩ : ∃ m', m = m' + 1 := ⟨m - 1, by omega⟩
+    unfold recoverLoop at h ⊢
+    have hs : searchStack T s.la fuel s.stack ≠ .error "TIMEOUT" := by
+      intro hc; rw [hc] at h; exact h rfl
+    rw [searchStack_mono hf s.stack hs]
+    cases hss : searchStack T s.la fuel s.stack with
+    | error w =>
+      by_cases hw : w = "TIMEOUT"
+      · subst hw; rfl
+      · split <;> simp_all
+    | ok o =>
+      cases o with
+      | some st => rfl
+      | none =>
+        simp only [hss] at h ⊢
+        split
+        · rfl
+        · cases hr : readToken T inp s with
+          | error w => rfl
+          | ok s1 =>
+            rename_i hla
+            simp only [hla, if_false, hr] at h ⊢
+            exact recoverLoop_mono hf n h (by omega)
+
+/-- `_recover()` with more fuel returns the same result, unless it had run out of fuel. -/
+theorem recover_mono {T : Tables} {inp : Array Nat} {fuel fuel' : Nat} {s : PState}
+    (h : recover T inp fuel s ≠ .timeout) (hf : fuel ≤ fuel') :
+    recover T inp fuel' s = recover T inp fuel s := by
+  rw [recover_eq] at h ⊢
+  rw [recover_eq]
+  cases he : errSymOf T s with
+  | error w => rfl
+  | ok e =>
+    simp only [he] at h ⊢
+    unfold recoverBody at h ⊢
+    have h1 : skipErrors T inp fuel s ≠ .ok none := by
+      intro hc; rw [hc] at h; exact h rfl
+    rw [skipErrors_mono fuel h1 hf]
+    cases hs1 : skipErrors T inp fuel s with
+    | error w => rfl
+    | ok o =>
+      cases o with
+      | none => exact absurd hs1 h1
+      | some s1 =>
+        simp only [hs1] at h ⊢
+        cases hrec : s1.recovering with
+        | false =>
+          simp only [hrec, Bool.false_eq_true, if_false] at h ⊢
+          exact recoverLoop_mono hf fuel h hf
+        | true =>
+          simp only [hrec, if_true] at h ⊢
+          by_cases hE : s1.la = tEOF
+          · simp only [hE, if_true]
+          · simp only [hE, if_false] at h ⊢
+            cases hr : readToken T inp s1 with
+            | error w => rfl
+            | ok s2 =>
+              simp only [hr] at h ⊢
+              have h3 : skipErrors T inp fuel s2 ≠ .ok none := by
+                intro hc; rw [hc] at h; exact h rfl
+              rw [skipErrors_mono fuel h3 hf]
+              cases hs3 : skipErrors T inp fuel s2 with
+              | error w => rfl
+              | ok o =>
+                cases o with
+                | none => exact absurd hs3 h3
+                | some s3 =>
+                  simp only [hs3] at h ⊢
+                  exact recoverLoop_mono hf fuel h hf
+
+/-- One iteration of `parse` with more fuel for `_recover`. -/
+theorem step_mono {T : Tables} {inp : Array Nat} {wb : Bool} {fuel fuel' : Nat} {s : PState}
+    (h : recover T inp fuel s ≠ .timeout) (hf : fuel ≤ fuel') :
+    step T inp wb fuel' s = step T inp wb fuel s := by
+  unfold step
+  rw [recover_mono h hf]
+
+/-- The loop of `parse` with more fuel for `_recover`, when `_recover` never times out on the
+states satisfying an invariant of the loop. -/
+theorem runLoop_mono_inv {T : Tables} {inp : Array Nat} {wb : Bool} {fuel fuel' : Nat}
+    (Inv : PState → Prop)
+    (hstep : ∀ s s', Inv s → step T inp wb fuel s = .cont s' → Inv s')
+    (h : ∀ s, Inv s → recover T inp fuel s ≠ .timeout) (hf : fuel ≤ fuel') :
+    ∀ (n : Nat) (s : PState), Inv s → runLoop T inp wb fuel' n s = runLoop T inp wb fuel n s
+  | 0, _, _ => rfl
+  | n + 1, s, hs => by
+    unfold runLoop
+    rw [step_mono (h s hs) hf]
+    cases hst : step T inp wb fuel s with
+    | cont s' => exact runLoop_mono_inv Inv hstep h hf n s' (hstep s s' hs hst)
+    | done o s' => rfl
+
+/-- The loop of `parse` with more fuel for `_recover` (when `_recover` never times out). -/
+theorem runLoop_mono {T : Tables} {inp : Array Nat} {wb : Bool} {fuel fuel' : Nat}
+    (h : ∀ s, recover T inp fuel s ≠ .timeout) (hf : fuel ≤ fuel') :
+    ∀ (n : Nat) (s : PState), runLoop T inp wb fuel' n s = runLoop T inp wb fuel n s :=
+  fun n s => runLoop_mono_inv (fun _ => True) (fun _ _ _ _ => trivial) (fun s _ => h s) hf n s trivial
 
 end Lox.LR.Rt
